@@ -505,6 +505,20 @@ Definition S_writers_refuted_batch : Prop :=
     let s := wrun false sched (winitc counts) in
     all_done s /\ (exists c, In c counts /\ (2 <= c)%nat) /\ (recovered s < w_log s)%nat.
 
+(** crash points of concurrent writers: at EVERY instant of every run (not only when all the
+    threads have returned) each write acknowledged so far is restored by a recovery from the
+    cached head as it is at that instant *)
+Definition S_writers_crash_safe : Prop :=
+  forall counts sched,
+    let s := wrun true sched (winitc counts) in
+    forall e, In e (returned s) -> (1 <= e <= recovered s)%nat.
+(** ... which the pinned commit does not give: a run and an instant at which an acknowledged
+    entry is not covered by the cached head *)
+Definition S_writers_refuted_crash : Prop :=
+  exists counts sched,
+    let s := wrun false sched (winitc counts) in
+    exists e, In e (returned s) /\ (recovered s < e)%nat.
+
 (** * Joining a fetched multi-entry log (Load from disk, LoadFromSnapshot) *)
 
 
